@@ -171,6 +171,31 @@ def big_directory(root: str, rnd: random.Random, k: int) -> Dict[str, str]:
 RAISE_DIR_CFG = "[sqlfluff]\nlarge_file_skip_byte_limit = abc\n"   # load_raw_file_and_config raises ValueError
 
 
+def context_directory(root: str, rnd: random.Random) -> Dict[str, str]:
+    """Templated files whose *effective templater context differs by directory*: `a/.sqlfluff` defines the jinja
+    variable `tbl`, `b/` does not, both contain the same query using it (defined in a/: lints; undefined in b/:
+    TMP + PRS); `c/` has two files referencing the same undefined variable; `m/` defines a macro in its context
+    that `m/` uses and `b/` does not have.  Any state a templater keeps from one file to the next (context,
+    macros, undefined-variable bookkeeping) makes the verdicts depend on who rendered what before -- i.e. on
+    the runner (one templater for the whole serial run, a fresh one per task in a pool) and on path order."""
+    t = rnd.choice(["orders", "users", "s.tbl"])
+    q = "SELECT id  from {{ tbl }}\n"
+    files = {
+        "a/q.sql": q, "b/q.sql": q,
+        "a/r.sql": "SELECT {{ col }} FROM {{ tbl }}\n", "b/r.sql": "SELECT {{ col }} FROM {{ tbl }}\n",
+        "c/u1.sql": "SELECT {{ missing_var }}  from tb\n", "c/u2.sql": "SELECT a FROM {{ missing_var }}\n",
+        "m/k.sql": "SELECT {{ keyed('id') }}  from tb\n", "b/k.sql": "SELECT {{ keyed('id') }}  from tb\n",
+        "plain.sql": file_text("fixable", rnd), "clean.sql": file_text("clean", rnd),
+        "big.sql": file_text("oversize", rnd),
+    }
+    nested = {
+        "a": f"[sqlfluff:templater:jinja:context]\ntbl = {t}\ncol = amount\n",
+        "m": "[sqlfluff:templater:jinja:macros]\nkeyed = {% macro keyed(c) %}{{ c }}_key{% endmacro %}\n",
+    }
+    write_tree(root, files, skip_fail=False, nested=nested)
+    return {f: ("oversize" if f == "big.sql" else "templ") for f in files}
+
+
 def small_name(kind: str) -> str:
     return "rz/raise.sql" if kind == "raise" else f"{kind}.sql"
 
@@ -478,6 +503,30 @@ def make_jobs(tier: str, seed: int, emitted: List[dict], raising: List[dict], ro
                     {"id": f"{jid}-r2", "surface": "api_user_rules", "op": "lint", "n": 2, "runner": "thread",
                      "paths": ["."], "_base": f"{jid}-base"}]
             add_job(jid, tpl, kindof, runs, overrides=ov)
+    # ---- C->S: directories whose templater context differs per sub-directory, in both path orders
+    tpl = os.path.join(root, "tpl", "x0")
+    kindof = context_directory(tpl, rnd)
+    orders_x = [["a", "b", "c", "m", "big.sql", "clean.sql", "plain.sql"],
+                ["b", "a", "m", "c", "plain.sql", "big.sql", "clean.sql"],
+                ["c", "m", "b", "a", "clean.sql", "plain.sql", "big.sql"]]
+    flatx = sorted(kindof)
+    sel = [list(o) for o, on in orders if on <= 2] or [list(orders[0][0])]
+    for surface, op in (("api", "lint"), ("api", "fix"), ("cli", "lint"), ("cli", "fix"), ("api_user_rules", "lint")):
+        jid = f"x0-{surface}-{op}"
+        ov = {"dialect": "ansi", "rules": "LT01,CP01,ZZ01"} if surface == "api_user_rules" else None
+        runs = [{"id": f"{jid}-base", "surface": surface, "op": op, "n": 1, "paths": orders_x[0]}]
+        c = 0
+        for paths in orders_x:
+            combos = [(1, "process"), (2, "process"), (2, "thread")]
+            if tier == "quick":
+                combos = combos[:2] if paths is not orders_x[1] else combos
+            for n, runner in combos:
+                if paths is orders_x[0] and n == 1:
+                    continue            # that is the baseline itself
+                c += 1
+                runs.append({"id": f"{jid}-r{c}", "surface": surface, "op": op, "n": n, "runner": runner, "paths": paths,
+                             "sched": plan_tiled(sel, flatx, rnd, unit) if n > 1 else {}, "_base": f"{jid}-base"})
+        add_job(jid, tpl, kindof, runs, overrides=ov)
     return jobs, meta
 
 
